@@ -2,7 +2,7 @@
 import re
 
 import anchors
-from core import (BA, call_matches, callee_paths, op_local, op_place, op_const, const_int, place_fields, rvalue_places,
+from core import (BA, FAL, call_matches, callee_paths, op_local, op_place, op_const, const_int, place_fields, rvalue_places,
                   taint, upvar_index, closure_sites)
 from facts import strip_generics
 from rules import common
@@ -88,7 +88,7 @@ def run(ctx):
            detail="the target is replaced by rename(tmp, t) and removed by unlink(t) when no output was produced")
     # rename source is the temp path (param), copy destination derives from File::create(tmp)
     ren = rba.calls(r"std::fs::rename")
-    tmp_t = common.role_taint(R, roles["tmp"], mode="direct")
+    tmp_t = common.role_ftaint(R, roles["tmp"])
     if ren:
         a0 = op_local(R.blocks[ren[0]]["term"]["args"][0])
         ok = a0 in tmp_t or any(x in tmp_t for x in rba.ref_chain(a0))
@@ -120,8 +120,12 @@ def run(ctx):
         ctx.ob("R4.2", "%s|206/207-decided-before-success-test" % R.key, ok, where=ctx.where(R, sw),
                detail="rv := 206 / 207 happen before, never after, the success test" if ok else "the success test is evaluated before the direct-modification / double-output checks")
         # the tests guarding 206/207
-        mod_sw = [s for s in sorted(rba.live) if rba.bool_switch(s) and any(rba.edge_dominates((s, rba.bool_switch(s)[0]), x) for x in a206)]
-        ok = bool(mod_sw) and all(rba.dominates(m, sw) for m in mod_sw[:1])
+        # (over feasible paths: the verdict may travel from the test to the `rv := 206` assignment as a value, e.g.
+        # `Some(Mistake::ModifiedTarget)` returned by a detector and matched later; the test is then the bool switch
+        # whose true side is the only way to reach the assignment on paths that can execute)
+        rfa = FAL.of(R)
+        mod_sw = [s for s in sorted(rba.live) if rba.bool_switch(s) and any(rfa.edge_dominates((s, rba.bool_switch(s)[0]), x) for x in a206)]
+        ok = bool(mod_sw) and all(rba.dominates(m, sw) for m in mod_sw)
         ctx.ob("R4.2", "%s|direct-modification-test-dominates" % R.key, ok, where=R.span, detail="the `modified` test dominates the success test")
         # rv's sources: the parameter (job status) and constants
         rvl = None
@@ -160,7 +164,7 @@ def run(ctx):
     sba = BA.of(SS)
     forks = sba.calls(anchors.FORK_START)
     unl = sba.calls_deep(r"helpers::unlink", prog)
-    common.mpt(ctx, "R4.4", "%s|stale-tmp-removed-before-fork" % SS.key, SS, [0], forks, unl, "helpers::unlink(tmp_name) precedes the fork", "a stale $3 from a killed run survives into the new build (and is taken for output)")
+    common.mpt_fl(ctx, "R4.4", "%s|stale-tmp-removed-before-fork" % SS.key, SS, [0], forks, unl, "helpers::unlink(tmp_name) precedes the fork", "a stale $3 from a killed run survives into the new build (and is taken for output)")
     if unl:
         a = op_local(SS.blocks[unl[0]]["term"]["args"][0])
         sl, org, _ = backward_direct(SS, a, depth=200)
@@ -169,12 +173,9 @@ def run(ctx):
         dd_t = taint(SS, src_place=lambda p: "paths::DoFile.do_dir" in place_fields(p), mode="derived")
         ok = from_dodir and (a in df_t or any(x in df_t for x in sba.ref_chain(a))) and (a in dd_t or any(x in dd_t for x in sba.ref_chain(a)))
         ctx.ob("R4.4", "%s|tmp-name=do_dir.join(base_name+ext+suffix)" % SS.key, ok, where=ctx.where(SS, unl[0]), detail="tmp_name derives from df.do_dir and df.base_name" if ok else "the removed path is not the temp name beside the target")
-        # the same tmp_name value is what the recorder coroutine receives
-        cs = [c for c in closure_sites(SS, RR.key)]
-        ok = False
-        if cs:
-            tl = set(sba.ref_chain(a)) | backward_direct(SS, a, depth=40)[0]
-            ok = any(op_local(o) in tl for o in cs[0][4] if op_local(o) is not None)
+        # the same tmp_name value is what the recorder coroutine receives and hands to record_new_state (followed
+        # forward from where the removed path is computed: captured as it is, or inside a bundle, see recorder_roles)
+        ok = bool(roles["_upp_tmp"]) and bool(roles["tmp"])
         ctx.ob("R4.4", "%s|same-tmp-recorded" % SS.key, ok, where=SS.span, detail="the temp name removed before the fork is the one record_new_state renames from")
 
     # ---- R4.5
@@ -209,10 +210,9 @@ def const_assign_blocks(body, value):
     return out
 
 
-def tmp_name_sources(prog, SS):
-    """start_self locals holding the temp-output path: what the unlink that precedes the fork removes
-    (role query: `helpers::unlink(x)` on every path to the fork), followed back to where the path is computed
-    and forward again through every direct alias."""
+def tmp_name_seeds(prog, SS):
+    """start_self locals at which the temp-output path is computed: what the unlink that precedes the fork removes
+    (role query: `helpers::unlink(x)` on every path to the fork), followed back to its origin."""
     sba = BA.of(SS)
     forks = sba.calls(anchors.FORK_START)
     seeds = set()
@@ -223,7 +223,12 @@ def tmp_name_sources(prog, SS):
         if a is None:
             continue
         seeds |= set(sba.ref_chain(a)) | backward_direct(SS, a, depth=40)[0]
-    seeds = {l for l in seeds if l > SS.arg_count}
+    return {l for l in seeds if l > SS.arg_count}
+
+
+def tmp_name_sources(prog, SS):
+    """start_self locals holding the temp-output path: the seeds above and, forward again, every direct alias."""
+    seeds = tmp_name_seeds(prog, SS)
     return taint(SS, seeds=seeds, mode="direct") if seeds else set()
 
 
@@ -234,11 +239,20 @@ def recorder_roles(prog, R, SS, J, RR):
       't'        the target path (BuildJob.t)
       'tmp'      the temp-output path start_self removes before the fork
       'before_t' the stat BuildJob::start takes before the verdict and hands to start_self
-    Each value is {(param_no, field_prefix)} (see common.call_arg_roles); empty when the chain is broken."""
+    Each value is {(param_no, field_path)}: field_path is () for the whole parameter, else the 'Type.field' names
+    leading to the value inside a bundle (a struct built at the call site, or built in start_self and handed through
+    the coroutine as one captured variable); empty when the chain is broken.
+    The flow is followed field-sensitively (core.FieldTaint) in all three bodies, so that bundling several of these
+    values into one struct / tuple on the way (`DoCommand { df, tmp_name, argv }`, `DoOutput { before_t, out_file,
+    tmp_name, argv }`, `(cmd, out_file)`) does not make one stand for the others.
+    '_up_<role>' = captured-variable indices of the coroutine holding the value, '_upp_<role>' = the same with the
+    field path inside the captured variable."""
+    from core import FieldTaint
     sba, jba, rrba = BA.of(SS), BA.of(J), BA.of(RR)
     src = {}
-    src["t"] = taint(SS, src_place=lambda p: place_fields(p)[-1:] == ["builder::BuildJob.t"], mode="direct")
-    src["tmp"] = tmp_name_sources(prog, SS)
+    src["t"] = FieldTaint(SS, src_place=lambda p: place_fields(p)[-1:] == ["builder::BuildJob.t"])
+    tseeds = tmp_name_seeds(prog, SS)
+    src["tmp"] = FieldTaint(SS, seeds=tseeds) if tseeds else None
     # before_t: the pre-verdict stat in the dispatcher -> start_self parameter
     P1 = set()
     stats = pre_verdict_stats(prog, J)
@@ -247,17 +261,25 @@ def recorder_roles(prog, R, SS, J, RR):
         per_site = [common.call_arg_roles(J, c, common.in_set(J, tl)) for c in jba.calls(re.escape(SS.key))]
         if per_site and all(per_site):
             P1 = set.intersection(*per_site)
-    src["before_t"] = common.role_taint(SS, P1, mode="direct")
+    src["before_t"] = FieldTaint(SS, seeds={n for (n, pref) in P1 if not pref}, seed_paths=[(n, tuple(pref)) for (n, pref) in P1 if pref]) if P1 else None
     out = {"_ss_params_before_t": P1}
     rn = rrba.calls(re.escape(R.key))
-    for role, tset in src.items():
-        ups = common.upvars_bound_to(SS, RR.key, common.in_set(SS, tset)) if tset else set()
-        out["_up_" + role] = ups
-        rt = common.upvar_taint(RR, ups, mode="direct")
+    sites = closure_sites(SS, RR.key)
+    for role, ft in src.items():
+        upp = set()
+        if ft is not None:
+            for (bb, j, dest, k, ops) in sites:
+                for n, o in enumerate(ops):
+                    for path in ft.operand_paths(o):
+                        upp.add((n, tuple(path)))
+        out["_upp_" + role] = upp
+        out["_up_" + role] = {n for (n, _) in upp}
         roles = None
-        for c in rn:
-            r = common.call_arg_roles(RR, c, common.in_set(RR, rt)) if rt else set()
-            roles = r if roles is None else (roles & r)
+        if upp:
+            frr = FieldTaint(RR, seed_paths=[(-(1000 + n), path) for (n, path) in upp])
+            for c in rn:
+                r = {(k + 1, tuple(path)) for k, a in enumerate(RR.blocks[c]["term"]["args"]) for path in frr.operand_paths(a)}
+                roles = r if roles is None else (roles & r)
         out[role] = roles or set()
     return out
 
@@ -281,9 +303,12 @@ def target_taint(prog, b, R, SS, J, RR, roles=None):
     if roles is None:
         roles = recorder_roles(prog, R, SS, J, RR)
     if b.key == R.key:
-        return common.role_taint(b, roles["t"], mode="direct")
+        # field-sensitive: record_new_state may pack its parameters into a struct of its own (`StateRecorder { t,
+        # tmp_name, .. }`) and work on `self.t` / `self.tmp_name`; the target path is then one field, not the struct
+        return common.role_ftaint(b, roles["t"])
     if b.key in (SS.key, J.key) or b.key == "builder::BuildJob::start_deps_unlocked":
         return taint(b, src_place=lambda p: place_fields(p)[-1:] == ["builder::BuildJob.t"], mode="direct")
     if b.key == RR.key:
-        return common.upvar_taint(b, roles["_up_t"], mode="direct")
+        from core import FieldTaint
+        return FieldTaint(b, seed_paths=[(-(1000 + n), path) for (n, path) in roles["_upp_t"]]).whole_locals() if roles["_upp_t"] else set()
     return set()
